@@ -1,0 +1,9 @@
+//go:build verif
+
+package concurrency
+
+// Contracts for the verification machinery in /verif (comment-only; build tag verif).
+
+// Schedule hands the task to a worker goroutine; the task itself is not executed in the caller's step.
+//@ func (p *GoRoutinePool) Schedule(task Task)
+//@   trusted
